@@ -41,6 +41,8 @@ def canary_doc() -> tuple[dict, dict[str, dict]]:
         c("property name (int)", True): {"type": "integer", "description": c("int description"), "default": 3},
         c("property name (date)", True): {"type": "string", "format": "date", "description": c("date description")},
         c("property name (list)", True): {"type": "array", "items": {"type": "string"}, "description": c("list description")},
+        c("property name (bare ref)", True): {"$ref": "#/components/schemas/CanaryEnum"},
+        c("property name (allOf ref)", True): {"allOf": [{"$ref": "#/components/schemas/CanaryLeaf"}], "description": c("wrapper description")},
     }
     required = [k for i, k in enumerate(model_props) if i in (0, 2)]
     doc = {
@@ -58,6 +60,8 @@ def canary_doc() -> tuple[dict, dict[str, dict]]:
                         {"name": c("header parameter name", True), "in": "header", "schema": {"type": "string"}},
                         {"name": c("cookie parameter name", True), "in": "cookie", "schema": {"type": "string"}},
                         {"name": c("enum query parameter name", True), "in": "query", "schema": {"type": "string", "enum": [c("parameter enum value", True)]}},
+                        {"name": c("ref query parameter name", True), "in": "query", "schema": {"$ref": "#/components/schemas/CanaryEnum"}},
+                        {"name": c("ref header parameter name", True), "in": "header", "schema": {"$ref": "#/components/schemas/CanaryEnum"}},
                     ],
                     "requestBody": {"description": c("body description"), "content": {"application/json": {"schema": {"$ref": "#/components/schemas/CanaryModel"}}}},
                     "responses": {
@@ -72,6 +76,7 @@ def canary_doc() -> tuple[dict, dict[str, dict]]:
                 "CanaryModel": {"type": "object", "title": c("model title"), "description": c("model description"), "example": c("model example"), "required": required, "properties": model_props},
                 "CanaryEnum": {"type": "string", "enum": [c("component enum value", True), c("component enum value", True)], "description": c("component enum description")},
                 "CanaryLit": {"type": "integer", "enum": [1, 2], "description": c("int enum description")},
+                "CanaryLeaf": {"type": "object", "properties": {c("leaf property name", True): {"type": "integer"}}},
             }
         },
     }
@@ -220,7 +225,7 @@ def run_injection(sid: str, payload: str, meta: str = "none", base: tuple | None
 import re as _re
 
 _W = _re.compile(r"\w")
-DOC_KINDS = {"property description", "example", "enum description", "const description", "int description", "date description", "list description", "parameter schema description", "model description", "model example"}
+DOC_KINDS = {"property description", "example", "enum description", "const description", "int description", "date description", "list description", "parameter schema description", "model description", "model example", "component enum description", "wrapper description", "int enum description"}
 
 
 def _has_w_not_xid(p: str) -> bool:
